@@ -38,7 +38,8 @@ class Job:
                  unwind=None, strcap=32, timeout=None, tier='quick', cname=None, may_throw=None, srcrel=None,
                  extra_cflags=(), cbmc_flags=(), no_checks=False, stubs=(), self_const=None, arity=None,
                  inline_select=None, object_bits=None, lemma=False, defines=(), variant_of=None, kf=None,
-                 description='', cases=None, case=None, replay_ghost=(), replay_domain=None, variants=None, unwindset=None, assume=None, contract_name=None, sat=None, exclude_clauses=(), harness=None, enforce=True):
+                 description='', cases=None, case=None, replay_ghost=(), replay_domain=None, variants=None, unwindset=None, assume=None, contract_name=None, sat=None, exclude_clauses=(), harness=None, enforce=True, lean=None):
+        self.lean = lean   # path (relative to /verif) of a Lean 4 file of pure integer bridging lemmas (DESIGN 3.7)
         self.enforce = enforce   # False: the extracted body is used as is inside a relational lemma harness (DFCC allows one enforced call only)
         self.harness = harness   # name of a /*@ harness-alt <name> */ section: a relational lemma harness around the function under contract
         self.exclude_clauses = tuple(exclude_clauses)   # clause ids left to another (slower) job of the same function
@@ -354,15 +355,15 @@ def _limit():
         pass
 
 
-def run_cmd(cmd, timeout, cwd=None, stdout_path=None):
+def run_cmd(cmd, timeout, cwd=None, stdout_path=None, limit=True):
     t0 = time.time()
     try:
         if stdout_path:
             with open(stdout_path, 'w') as fo:
-                p = subprocess.run(cmd, stdout=fo, stderr=subprocess.PIPE, timeout=timeout, cwd=cwd, preexec_fn=_limit)
+                p = subprocess.run(cmd, stdout=fo, stderr=subprocess.PIPE, timeout=timeout, cwd=cwd, preexec_fn=_limit if limit else None)
             out = ''
         else:
-            p = subprocess.run(cmd, stdout=subprocess.PIPE, stderr=subprocess.PIPE, timeout=timeout, cwd=cwd, preexec_fn=_limit)
+            p = subprocess.run(cmd, stdout=subprocess.PIPE, stderr=subprocess.PIPE, timeout=timeout, cwd=cwd, preexec_fn=_limit if limit else None)
             out = p.stdout.decode(errors='replace')
         return p.returncode, out, p.stderr.decode(errors='replace'), time.time() - t0
     except subprocess.TimeoutExpired:
@@ -391,6 +392,8 @@ def run_job(proj, job, workdir, tier='quick', seed=0, only_property=None, noslic
     res = dict(job=job.name, func=job.func, status='error', obligations=[], failures=[], wall_s=0.0, solver_s=0.0,
                diag='', backend='cbmc 6.11 SAT (minisat2)', props=sorted(job.props))
     t0 = time.time()
+    if getattr(job, 'lean', None):
+        return run_lean(job, res, t0)
     try:
         b = build_tu(proj, job)
     except ExtractError as e:
@@ -612,6 +615,46 @@ def run_job(proj, job, workdir, tier='quick', seed=0, only_property=None, noslic
     return res
 
 
+def run_lean(job, res, t0):
+    """a file of Lean 4 / Mathlib lemmas: every theorem is an obligation, discharged by the Lean kernel; sorry / axiom / admit are refused"""
+    path = os.path.join(VERIF, job.lean)
+    res['backend'] = 'lean 4 kernel (Mathlib tactics)'
+    res['checker_cmd'] = 'lean ' + job.lean
+    res['metas'] = [dict(function=job.lean, role='bridging lemmas (pure integer arithmetic)')]
+    try:
+        text = open(path).read()
+    except Exception as e:
+        res['diag'] = 'cannot read %s: %s' % (path, e)
+        return res
+    code = re.sub(r'/-.*?-/', '', text, flags=re.S)
+    code = re.sub(r'--.*', '', code)
+    bad = re.findall(r'\b(sorry|admit|axiom|native_decide|unsafe)\b', code)
+    if bad:
+        res['diag'] = 'refused: the lemma file uses %s' % sorted(set(bad))
+        return res
+    names = re.findall(r'^\s*theorem\s+(\w+)', code, flags=re.M)
+    rc, out, err, dt = run_cmd(['lean', path], job.timeout or 1200, cwd=os.path.dirname(path), limit=False)   # lean maps Mathlib's .olean files: no address-space limit
+    res['solver_s'] = round(dt, 2)
+    if rc == 'timeout':
+        res['status'] = 'timeout'
+        res['diag'] = 'lean timed out'
+        return res
+    ok = (rc == 0) and ('error' not in (out + err)) and ("declaration uses 'sorry'" not in (out + err))
+    for n in names:
+        res['obligations'].append(dict(id='lean.' + n, status='SUCCESS' if ok else 'FAILURE', desc='theorem ' + n, file=path, line=0,
+                                       function=None, clause='%s:%s' % (os.path.basename(path), n)))
+    res['n_obligations'] = len(names)
+    res['n_discharged'] = len(names) if ok else 0
+    res['canary_ok'] = True
+    if ok and names:
+        res['status'] = 'ok'
+    else:
+        res['status'] = 'error'
+        res['diag'] = 'lean did not accept the file:\n' + (out + err)[-2000:]
+    res['wall_s'] = round(time.time() - t0, 2)
+    return res
+
+
 def extract_inputs(trace, entry):
     """last value assigned to each harness local in_* before the call (function == harness)"""
     vals = {}
@@ -649,6 +692,19 @@ def expand_cases(job, kf=()):
     """a job with an exhaustive case split becomes one sub-job per case plus the exhaustiveness obligation.
     Known findings (known.py) split the job further: the listed input pattern / everything else."""
     import copy
+    swaps = [k for k in kf if k.get('swap')]
+    if swaps:
+        out = []
+        j0 = copy.copy(job)
+        j0.exclude_clauses = tuple(job.exclude_clauses) + tuple(k['swap'][0] for k in swaps)
+        rest = [k for k in kf if not k.get('swap')]
+        out.extend(expand_cases(j0, rest))
+        for k in swaps:
+            j = copy.copy(job)
+            j.exclude_clauses = tuple(job.exclude_clauses) + (k['swap'][1],)
+            j.subname = job.name + '#kf%d' % k['line']
+            out.append(j)
+        return out
     if kf:
         out = []
         j0 = copy.copy(job)
